@@ -132,7 +132,7 @@ func init() {
 			return s
 		},
 		Run:  c17Run,
-		Rule: "(partial) 11 bodies (text, output tags of outer/data names, loop, conditional, let inside, counting marker, quotes/backslash, nested partial, nested partial with layout) x 7 data maps (none, empty, shadowing an outer name, fresh name, both, shadowing with nil, nil + fresh) x layout {none, layout, layout whose template itself uses a partial with a layout, .js layout} x content type {unset, text/html, application/javascript} x partial name extension {.html, .js, none} x position (top level, inside for, inside if, inside a helper block, inside a user function): output equals the composition at string level of the same sources rendered by plush itself as standalone templates in the equivalent scope (JS case: JSEscapeString of it), a counting marker shows every insertion happened exactly once. (content) every sequence of <=4 items from {contentFor(c1){…}, contentFor(c2){…}, contentOf(c1|c2|undefined) with/without data and with/without default block}: contentFor emits nothing where defined, each contentOf emits the stored block rendered with its data in a child of the definition scope (or its default block, or the render fails when undefined), later definitions win. (absolute) 15 compositions (incl. a name carried by a wrapped Go context read in partials, a layout, nested partials, stored and default blocks) with literal expectations: partials nested two and three deep inside a partial that was given a layout (only that partial is wrapped); a list printed by an output tag and modified later in the same block (if / helper / contentFor / function / for body: printed as it was at the tag, like inline); a time printed inside blocks whose own context carries a TIME_FORMAT (contentOf data, default block, BlockWith(child)); empty blocks (a block helper with an empty / comment-only / silent block has a block that renders to nothing; empty contentOf default and contentFor blocks), outer variables, variables and data named like built-in helpers, data overriding and sibling isolation through partials nested three deep, layout of a nested partial, contentFor inside a partial, block helper inside a partial inside a loop. (blocks) block helpers using Block() / BlockWith(child) / calling Block() twice over the same bodies and placements: the string the helper received equals the inline rendering. Non-trivial: all cases with a non-text body or data.",
+		Rule: "(partial) 11 bodies (text, output tags of outer/data names, loop, conditional, let inside, counting marker, quotes/backslash, nested partial, nested partial with layout) x 7 data maps (none, empty, shadowing an outer name, fresh name, both, shadowing with nil, nil + fresh) x layout {none, layout, layout whose template itself uses a partial with a layout, .js layout} x content type {unset, text/html, application/javascript} x partial name extension {.html, .js, none} (under a JavaScript content type also below directory names that contain dots: ../shared/, ./, v1.2/, dir.js/, a.b/c.d/) x position (top level, inside for, inside if, inside a helper block, inside a user function): output equals the composition at string level of the same sources rendered by plush itself as standalone templates in the equivalent scope (JS case: JSEscapeString of it), a counting marker shows every insertion happened exactly once. (content) every sequence of <=4 items from {contentFor(c1){…}, contentFor(c2){…}, contentOf(c1|c2|undefined) with/without data and with/without default block}: contentFor emits nothing where defined, each contentOf emits the stored block rendered with its data in a child of the definition scope (or its default block, or the render fails when undefined), later definitions win. (absolute) 15 compositions (incl. a name carried by a wrapped Go context read in partials, a layout, nested partials, stored and default blocks) with literal expectations: partials nested two and three deep inside a partial that was given a layout (only that partial is wrapped); a list printed by an output tag and modified later in the same block (if / helper / contentFor / function / for body: printed as it was at the tag, like inline); a time printed inside blocks whose own context carries a TIME_FORMAT (contentOf data, default block, BlockWith(child)); empty blocks (a block helper with an empty / comment-only / silent block has a block that renders to nothing; empty contentOf default and contentFor blocks), outer variables, variables and data named like built-in helpers, data overriding and sibling isolation through partials nested three deep, layout of a nested partial, contentFor inside a partial, block helper inside a partial inside a loop. (blocks) block helpers using Block() / BlockWith(child) / calling Block() twice over the same bodies and placements: the string the helper received equals the inline rendering. Non-trivial: all cases with a non-text body or data.",
 		Bound: func(th bool) string {
 			if th {
 				return "all listed combinations; content programs of <=5 items"
@@ -162,66 +162,71 @@ func c17Run(t *engine.T, shard string) {
 				for _, d := range c17Data {
 					for _, lay := range c17Layouts {
 						for _, pl := range c17Places {
-							name := "body" + ext
-							dsrc := d.src
-							data := map[string]interface{}{}
-							for k, v := range d.m {
-								data[k] = v
-							}
-							if lay != "" {
-								data["layout"] = lay
-								if d.m == nil {
-									dsrc = `, {"layout": "` + lay + `"}`
-								} else if len(d.m) == 0 {
-									dsrc = `, {"layout": "` + lay + `"}`
-								} else {
-									dsrc = strings.TrimSuffix(d.src, "}") + `, "layout": "` + lay + `"}`
+							for _, dir := range []string{"", "../shared/", "./", "v1.2/", "dir.js/", "a.b/c.d/"} {
+								if dir != "" && (!strings.Contains(ct, "javascript") || pl.name != "top" || (d.m != nil && d.name != "fresh")) {
+									continue // names with dots in their directory part: what counts is the extension of the last element
 								}
-							}
-							src := "PRE|" + pl.pre + `<%= partial("` + name + `"` + dsrc + `) %>` + pl.post + "|POST"
-							desc := fmt.Sprintf("partial body=%s ext=%q ct=%q data=%s layout=%q place=%s %s", body.name, ext, ct, d.name, lay, pl.name, q(src))
-							t.Case(desc, body.name != "text" || d.m != nil, func() (string, *engine.Fail) {
-								e := c17NewEnv(ct)
-								e.texts[name] = body.src
-								ctx := e.context()
-								ctx.Set("one", []int{1})
-								out, err := Render(src, ctx)
-								ticksGot := e.ticks
-								// inline reference
-								e2 := c17NewEnv(ct)
-								e2.texts[name] = body.src
-								ctx2 := e2.context()
-								ctx2.Set("one", []int{1})
-								var scope *plush.Context = ctx2
-								if pl.name == "in-for" || pl.name == "in-fn" {
-									scope = ctx2.New().(*plush.Context) // the construct's own scope
-									scope.Set("z", 1)
+								name := dir + "body" + ext
+								dsrc := d.src
+								data := map[string]interface{}{}
+								for k, v := range d.m {
+									data[k] = v
 								}
-								want, werr := e2.inline(name, data, scope)
-								if werr != nil {
-									if err == nil {
-										return "", engine.Failf("mismatch", "inline rendering fails (%v) but the partial rendered %q", werr, out)
+								if lay != "" {
+									data["layout"] = lay
+									if d.m == nil {
+										dsrc = `, {"layout": "` + lay + `"}`
+									} else if len(d.m) == 0 {
+										dsrc = `, {"layout": "` + lay + `"}`
+									} else {
+										dsrc = strings.TrimSuffix(d.src, "}") + `, "layout": "` + lay + `"}`
 									}
-									return "both-fail", nil
 								}
-								if err != nil {
-									return "", engine.Failf("mismatch", "inline rendering gives %q but the partial failed: %v", want, err)
-								}
-								full := "PRE|" + want + "|POST"
-								if pl.name == "in-block" {
-									full = "PRE|{" + want + "}|POST"
-								}
-								if out != full {
-									return "", engine.Failf("mismatch", "expected %q (inline), got %q", full, out)
-								}
-								if ticksGot != e2.ticks {
-									return "", engine.Failf("insertions", "body executed %d times, inline executes it %d times", ticksGot, e2.ticks)
-								}
-								if strings.Contains(ct, "javascript") && ext == ".html" {
-									return "js-escaped", nil
-								}
-								return "equal-inline", nil
-							})
+								src := "PRE|" + pl.pre + `<%= partial("` + name + `"` + dsrc + `) %>` + pl.post + "|POST"
+								desc := fmt.Sprintf("partial body=%s ext=%q ct=%q data=%s layout=%q place=%s %s", body.name, ext, ct, d.name, lay, pl.name, q(src))
+								t.Case(desc, body.name != "text" || d.m != nil, func() (string, *engine.Fail) {
+									e := c17NewEnv(ct)
+									e.texts[name] = body.src
+									ctx := e.context()
+									ctx.Set("one", []int{1})
+									out, err := Render(src, ctx)
+									ticksGot := e.ticks
+									// inline reference
+									e2 := c17NewEnv(ct)
+									e2.texts[name] = body.src
+									ctx2 := e2.context()
+									ctx2.Set("one", []int{1})
+									var scope *plush.Context = ctx2
+									if pl.name == "in-for" || pl.name == "in-fn" {
+										scope = ctx2.New().(*plush.Context) // the construct's own scope
+										scope.Set("z", 1)
+									}
+									want, werr := e2.inline(name, data, scope)
+									if werr != nil {
+										if err == nil {
+											return "", engine.Failf("mismatch", "inline rendering fails (%v) but the partial rendered %q", werr, out)
+										}
+										return "both-fail", nil
+									}
+									if err != nil {
+										return "", engine.Failf("mismatch", "inline rendering gives %q but the partial failed: %v", want, err)
+									}
+									full := "PRE|" + want + "|POST"
+									if pl.name == "in-block" {
+										full = "PRE|{" + want + "}|POST"
+									}
+									if out != full {
+										return "", engine.Failf("mismatch", "expected %q (inline), got %q", full, out)
+									}
+									if ticksGot != e2.ticks {
+										return "", engine.Failf("insertions", "body executed %d times, inline executes it %d times", ticksGot, e2.ticks)
+									}
+									if strings.Contains(ct, "javascript") && ext == ".html" {
+										return "js-escaped", nil
+									}
+									return "equal-inline", nil
+								})
+							}
 						}
 					}
 				}
